@@ -5,34 +5,34 @@ From V Require Import Base.Bits Gen.WireOps Gen.Helpers Gen.Prims Model.Fxp Mode
 From Coq Require Import QArith Qround.
 Open Scope Z_scope.
 
-Lemma fxh_ok F : 1 <= fint F -> fxh_new_ok F = true.
-Proof. intros H. unfold fxh_new_ok. destruct (Z.ltb_spec (fint F - 1) 0); [lia | reflexivity]. Qed.
+Lemma fxh_ok F : 0 <= fint F -> fxh_new_ok F = true.
+Proof. intros H. unfold fxh_new_ok. destruct (Z.ltb_spec (fint F) 0); [lia | reflexivity]. Qed.
 
-Lemma fxh_raises F a b : fint F < 1 -> fxh_add F a b = None /\ fxh_sub F a b = None /\ fxh_mult F a b = None.
+Lemma fxh_raises F a b : fint F < 0 -> fxh_add F a b = None /\ fxh_sub F a b = None /\ fxh_mult F a b = None.
 Proof.
   intros H. unfold fxh_add, fxh_sub, fxh_mult, fxh_new_ok.
-  destruct (Z.ltb_spec (fint F - 1) 0); [cbn [negb]; auto | lia].
+  destruct (Z.ltb_spec (fint F) 0); [cbn [negb]; auto | lia].
 Qed.
 
-Lemma fxh_add_agrees F a b : wf F -> 1 <= fint F -> fxh_add F a b = fxadd F F F a b.
+Lemma fxh_add_agrees F a b : wf F -> fxh_add F a b = fxadd F F F a b.
 Proof.
-  intros HF Hi. destruct (wf_width F HF) as [Hw _]. unfold fxh_add, fxadd.
+  intros HF. destruct (wf_width F HF) as [Hw _]. pose proof HF as [_ [Hi _]]. unfold fxh_add, fxadd.
   rewrite fxh_ok, fmt_eqb_refl by lia. cbn [andb]. cbv zeta. f_equal.
   rewrite add_block_char by lia. reflexivity.
 Qed.
 
-Lemma fxh_sub_agrees F a b : wf F -> 1 <= fint F -> fxh_sub F a b = fxsub F F F a b.
+Lemma fxh_sub_agrees F a b : wf F -> fxh_sub F a b = fxsub F F F a b.
 Proof.
-  intros HF Hi. destruct (wf_width F HF) as [Hw _]. unfold fxh_sub, fxsub.
+  intros HF. destruct (wf_width F HF) as [Hw _]. pose proof HF as [_ [Hi _]]. unfold fxh_sub, fxsub.
   rewrite fxh_ok, fmt_eqb_refl by lia. cbn [andb]. cbv zeta. f_equal.
   rewrite Sub_char by lia. reflexivity.
 Qed.
 
-Lemma fxh_mult_spec F a b : wf F -> 1 <= fint F -> enc F a -> enc F b ->
+Lemma fxh_mult_spec F a b : wf F -> enc F a -> enc F b ->
   fxh_mult F a b = Some (spec_mul (fwidth F) (ffrac F) (fwidth F) (ffrac F) (fwidth F) (ffrac F) a b).
 Proof.
-  intros HF Hi Ea Eb. destruct (wf_width F HF) as [Hw Hif]. unfold enc in *.
-  destruct HF as [Hs [_ Hf]].
+  intros HF Ea Eb. destruct (wf_width F HF) as [Hw Hif]. unfold enc in *.
+  destruct HF as [Hs [Hi Hf]].
   unfold fxh_mult. rewrite fxh_ok by lia. cbv zeta. f_equal.
   change (fsign F + fint F + ffrac F) with (fwidth F). set (w := fwidth F) in *.
   destruct (signExtend_char w (w * 2) a ltac:(lia) Ea) as [-> _].
@@ -45,10 +45,10 @@ Proof.
   rewrite Hm. rewrite window_div by lia. unfold spec_mul, fxint. do 3 f_equal. lia.
 Qed.
 
-Lemma fxh_mult_agrees F a b : wf F -> 1 <= fint F -> enc F a -> enc F b ->
+Lemma fxh_mult_agrees F a b : wf F -> enc F a -> enc F b ->
   fxh_mult F a b = fxmul F F F a b.
 Proof.
-  intros HF Hi Ea Eb. destruct (wf_width F HF) as [Hw Hif]. pose proof HF as [_ [_ Hf]].
+  intros HF Ea Eb. destruct (wf_width F HF) as [Hw Hif]. pose proof HF as [_ [Hi Hf]].
   rewrite fxh_mult_spec by assumption. symmetry. apply fxmul_spec; try assumption; unfold mul_low; lia.
 Qed.
 
